@@ -135,6 +135,10 @@ pub fn check_triple_parsed(which: u8, y: i32, m: u32, d: u32) -> Result<bool, St
         // completed from the clock): plain, and with the carrying fraction
         5 => (format!("{y:04}-{m:02}-{d:02} 23:59:59.9999996"), "YY-MM-DD HH24:MI:SS.FF9"),
         6 => (format!("{d:02}/{m:02}/{y:04}"), "DD/MM/YY"),
+        // a minus sign on the day or the month (before and after the year): such a text names no date
+        7 => (format!("-{d:02}-{m:02}-{y:04}"), "DD-MM-YYYY"),
+        8 => (format!("{y:04}/{m:02}/-{d:02}"), "YYYY/MM/DD"),
+        9 => (format!("-{m:02}.{d:02}.{y:04}"), "MM.DD.YYYY"),
         // a fraction that rounds up to the next second at 23:59:59: a real date carries into the
         // next day, an impossible triple stays impossible
         _ => (format!("{y:04}-{m:02}-{d:02} 23:59:59.9999996"), "YYYY-MM-DD HH24:MI:SS.FF9"),
@@ -144,7 +148,9 @@ pub fn check_triple_parsed(which: u8, y: i32, m: u32, d: u32) -> Result<bool, St
         4 | 5 => 86_400_000_000,
         _ => 0,
     };
-    let short_year = which / 3 >= 5;
+    let short_year = which / 3 == 5 || which / 3 == 6;
+    let expect = if which / 3 >= 7 { None } else { expect };
+    let signed_field = which / 3 >= 7;
     let carrying = which / 3 == 4 || which / 3 == 5;
     let name = ["Date", "Timestamp", "OracleDate"][which as usize % 3];
     let res: Result<i128, Error> = guarded(|| match which % 3 {
@@ -184,7 +190,7 @@ pub fn check_triple_parsed(which: u8, y: i32, m: u32, d: u32) -> Result<bool, St
         // reading four digits under a two-letter year token is a latitude of the parser, not part of
         // the statement: a rejection is not judged, an accepted value is
         (Some(_), Err(_)) if short_year => Ok(false),
-        (None, Err(_)) if short_year => Ok(false),
+        (None, Err(_)) if short_year || signed_field => Ok(false),
         (Some(n), Err(e)) => Err(format!("{name}::parse({text:?}, {pic:?}) = Err({e:?}) for a real date (day {n})")),
         (None, Ok(x)) => Err(format!("{name}::parse({text:?}, {pic:?}) accepted a triple that names no date in years 1..9999 ({x} us)")),
         (None, Err(e)) => {
@@ -432,9 +438,9 @@ pub fn run(ctx: &Ctx) -> (Stats, Report) {
             let y = y as i32;
             for &m in &pm {
                 for &d in &pd {
-                    // seven pictures (year first / last / in the middle, one whose fraction carries out of 23:59:59, two with a two-letter year token given four digits) x three types, rotated; both carrying pictures through Timestamp for every triple
-                    let rot = [((y as u32 + m + d) % 21) as u8, ((y as u32 + m + d + 10) % 21) as u8, 13, 16];
-                    let whichs: &[u8] = if all_entry_points { &[0, 1, 2, 3, 4, 5, 6, 7, 8, 9, 10, 11, 12, 13, 14, 15, 16, 17, 18, 19, 20] } else { &rot };
+                    // ten pictures (year first / last / in the middle, one whose fraction carries out of 23:59:59, two with a two-letter year token given four digits, three with a minus sign on the day or month) x three types, rotated; both carrying pictures through Timestamp for every triple
+                    let rot = [((y as u32 + m + d) % 30) as u8, ((y as u32 + m + d + 13) % 30) as u8, 13, 16];
+                    let whichs: &[u8] = if all_entry_points { &[0, 1, 2, 3, 4, 5, 6, 7, 8, 9, 10, 11, 12, 13, 14, 15, 16, 17, 18, 19, 20, 21, 22, 23, 24, 25, 26, 27, 28, 29] } else { &rot };
                     for &which in whichs {
                         st.evaluations += 1;
                         match check_triple_parsed(which, y, m, d) {
